@@ -106,6 +106,10 @@ func JSONGetNaturalLanguageField(val *fastjson.Value, prop string) NaturalLangua
 	}
 	v := val.Get(prop)
 	if v == nil {
+		// NOTE(marius): values in multiple languages are written as a language map under the "<prop>Map" term
+		v = val.Get(prop + "Map")
+	}
+	if v == nil {
 		return nil
 	}
 	switch v.Type() {
